@@ -878,7 +878,7 @@ func (a *c18) r3() {
 			}
 		}
 		// the functions the workers and Filter call per object (the ones the pass model drives)
-		if takesKeep && strings.HasPrefix(fn.Name(), "process") {
+		if takesKeep && a.isPerObject(fn) {
 			producers[fn] = true
 			n++
 		}
@@ -1009,6 +1009,7 @@ func (a *c18) r3() {
 
 func (a *c18) r4() {
 	c := a.c
+	storeSites := map[string]int{}
 	// S: Data map fields read (transitively) by KeepFunc closures
 	S := map[*types.Var]bool{}
 	seen := map[*types.Func]bool{}
@@ -1063,7 +1064,13 @@ func (a *c18) r4() {
 			if f == nil || !S[f] || a.isDependent(f) {
 				return true
 			}
-			cons := fmt.Sprintf("%s#store(%s)", c.P.FuncName(fn), f.Name())
+			// keyed by the set stored into, not by the function's name (a known finding stays the
+			// same finding when the function is renamed); a second site for the same set gets #2
+			storeSites[f.Name()]++
+			cons := fmt.Sprintf("encoding/osm#concurrent-store(%s)", f.Name())
+			if storeSites[f.Name()] > 1 {
+				cons += fmt.Sprintf("#%d", storeSites[f.Name()])
+			}
 			// on every path from this store to return the bool result must be true: approximate by
 			// "a `<result> = true` statement follows the store unconditionally in the same block"
 			requested := false
@@ -1228,7 +1235,7 @@ func (a *c18) passBarrier() {
 				if f == nil || c.P.Decl(f) == nil {
 					return true
 				}
-				if !strings.HasPrefix(f.Name(), "process") {
+				if !a.isPerObject(f) {
 					// a helper the worker body was moved into
 					if seenBody[f] || !a.reachesProcess(f, map[*types.Func]bool{}) {
 						return true
@@ -1375,7 +1382,7 @@ func (a *c18) reachesProcess(f *types.Func, seen map[*types.Func]bool) bool {
 	ast.Inspect(fd.Body, func(m ast.Node) bool {
 		if call, ok := m.(*ast.CallExpr); ok && !found {
 			if g := callee(a.info, call); g != nil && a.c.P.Decl(g) != nil {
-				if strings.HasPrefix(g.Name(), "process") || a.reachesProcess(g, seen) {
+				if a.isPerObject(g) || a.reachesProcess(g, seen) {
 					found = true
 				}
 			}
@@ -1383,4 +1390,33 @@ func (a *c18) reachesProcess(f *types.Func, seen map[*types.Func]bool) bool {
 		return !found
 	})
 	return found
+}
+
+// isPerObject: a function handling one element of the document — a method of Data that takes a
+// keep function and whose first parameter is a pointer to a node, way or relation (of the element
+// library or of this package).
+func (a *c18) isPerObject(f *types.Func) bool {
+	sig, ok := f.Type().(*types.Signature)
+	if !ok || sig.Recv() == nil || named(sig.Recv().Type()) != a.dataT || sig.Params().Len() < 2 {
+		return false
+	}
+	pt, ok := sig.Params().At(0).Type().(*types.Pointer)
+	if !ok {
+		return false
+	}
+	n := named(pt.Elem())
+	if n == nil {
+		return false
+	}
+	switch n.Obj().Name() {
+	case "Node", "Way", "Relation":
+	default:
+		return false
+	}
+	for i := 1; i < sig.Params().Len(); i++ {
+		if isNamed(sig.Params().At(i).Type(), a.p.PkgPath, "KeepFunc") {
+			return true
+		}
+	}
+	return false
 }
